@@ -184,6 +184,7 @@ fn run(ctx: &mut Ctx) {
             let u = ug.gen(&model);
             let text = upd::print_update(&u);
             history.push(text.clone());
+            let fresh_counter_before = fresh_counter;
             let eff = match upd::apply(&mut model, &u, &mut fresh_counter) {
                 Ok(e) => e,
                 Err(kvk::msparql::EvalError::TooBig) => {
@@ -242,8 +243,24 @@ fn run(ctx: &mut Ctx) {
                     break;
                 }
                 Err(e) => {
+                    // attribution: is it the recorded C01 finding (GRAPH ?g binds its variable before
+                    // the filters of its own block) seen through the WHERE clause?
+                    let mut sig = json!({"kind": "dataset_after_update_differs_from_sparql_update_semantics", "form": u.kind()});
+                    {
+                        let mut alt = pre.clone();
+                        let mut fc = fresh_counter_before;
+                        let prebound = kvk::msparql::Sem { graph_variable_prebound: true, ..Default::default() };
+                        if let Ok(eff2) = upd::apply_sem(&mut alt, &u, &mut fc, prebound) {
+                            let afresh: BTreeSet<String> = terms_of(&alt).into_iter().filter(|t| eff2.fresh.contains(t)).collect();
+                            let alt_terms = terms_of(&alt);
+                            let enew2: BTreeSet<String> = terms_of(&snap).into_iter().filter(|t| t.starts_with("_:") && !pre_terms.contains(t) && !alt_terms.contains(t)).collect();
+                            if match_blanks(&alt, &snap, &afresh, &enew2, &mut r).is_ok() {
+                                sig["cause"] = json!("where_clause:graph_variable_is_bound_before_the_filters_of_its_graph_block");
+                            }
+                        }
+                    }
                     ctx.violation(
-                        json!({"kind": "dataset_after_update_differs_from_sparql_update_semantics", "form": u.kind()}),
+                        sig,
                         json!({"request": text, "pre_state": pre.to_json(), "diff": diff(&model, &snap), "note": e, "step": step, "history": history}),
                     );
                     ok_case = false;
